@@ -137,7 +137,7 @@ var matrices = [][6]float64{
 	{0.001, 0, 0, 0, 0, 0},
 	{0.0004, 0, 0, 0.002, 0, 0},
 	{0.001, 0, 0, 0.001, 0.1, -0.05},
-	{0, 0, 0, 0, 0, 0}, // the unset matrix of a hand-built font: everything scales to 0
+	{0, 0, 0, 0, 0, 0},                 // the unset matrix of a hand-built font: everything scales to 0
 	{0.0010004, 0, 0, 0.0009996, 0, 0}, // almost, but not quite, the standard matrix
 	// thorough only from here
 	{0, 0, 0, 0.001, 0, 0},
